@@ -781,14 +781,33 @@ func Spice(r *core.Rng, root *TNode, wide, long, share bool) (did string) {
 	})
 	if wide && len(stacks) > 0 {
 		w := stacks[r.Intn(len(stacks))]
-		for i, n := 0, r.Range(13, 60); i < n; i++ {
+		n := r.Range(13, 60)
+		if r.Chance(1, 12) {
+			n = r.Range(900, 1400) // well beyond any pre-sized or chunked regime
+		}
+		for i := 0; i < n; i++ {
 			w.Kids = append(w.Kids, &TNode{T: "leaf", Leaf: &LeafDesc{Tag: "int", I: int64(5000 + i)}})
 		}
 		did += "wide "
+		if r.Chance(1, 3) {
+			// ... and a chain of 10..18 single-child levels hanging off the root (kinds alternate, some parenthetical)
+			var cur *TNode = &TNode{T: "leaf", Leaf: &LeafDesc{Tag: "str", S: "chain-bottom"}}
+			for d, depth := 0, r.Range(10, 18); d < depth; d++ {
+				cur = &TNode{T: "stack", Kind: []string{"AND", "OR", "NOT", "LIST"}[(d+n)%4], Paren: (d+n)%3 == 0,
+					Kids: []*TNode{{T: "leaf", Leaf: &LeafDesc{Tag: "int", I: int64(d)}}, cur}}
+			}
+			if root.Cap == 0 {
+				root.Kids = append(root.Kids, cur)
+				did = "wide+deep "
+			}
+		}
 	}
 	if long && len(strs) > 0 {
 		l := strs[r.Intn(len(strs))]
 		n := r.Range(40, 200)
+		if r.Chance(1, 8) {
+			n = r.Range(4000, 9000) // several kilobytes
+		}
 		b := make([]byte, n)
 		for i := range b {
 			b[i] = "abcdefghijklmnopqrstuvwxyz0123456789"[(i*7+n)%36]
